@@ -95,7 +95,7 @@ theorem sigDecode_ok (m : Mode) (p : ParamSet) (blz : Nat) (cfg : SigCfg p blz) 
     refine ⟨some (_, z, h), rfl, fun ct' z' h' hh => ?_⟩
     simp only [Option.some.injEq, Prod.mk.injEq] at hh
     obtain ⟨rfl, rfl, rfl⟩ := hh
-    refine ⟨?_, by simpa using hzl, hzr, c1, c2⟩
+    refine ⟨?_, by simpa using hzl, hzr, c1, fun q hq => (c2 q hq).1⟩
     rw [List.length_take, List.length_drop]; omega
 
 end Fips204.Impl
